@@ -8,18 +8,19 @@ SPEC = {
                  'C23_eth_runs_consecutive', 'C23_eth_runs_consecutive_nowrap', 'C23_eth_runs_maximal',
                  'C23_sender_order_irrelevant', 'C23_oracle_accepts_model', 'C23_hypotheses_satisfiable'],
     'allowed_axioms': [],
-    'shard': 100,
+    'shard': 350,
     'check_preamble': 'From C33 Require Import C23.Model C23.Spec.\nOpen Scope Z_scope.\n',
     'rule': 'scenarios = a real Mempool (NewMempool + SimpleQueue, no node) filled through PushTx under a virtual clock with '
             '0-10 transactions of 4 senders: signature types eth-sign id / secp256k1 / eth crypto with default address / '
-            'secp256k1 with eth address / ed25519, para and non-para execers, plain and 2-3 member groups, nonces around the '
+            'secp256k1 with eth address / ed25519, execers none / user.p.verif.none / user.p. / near misses, plain and 2-3 member groups, nonces around the '
             'sender\'s current nonce (below, at, runs, gaps, duplicates, identical bodies under another signature), Expire 0 / '
             'by height around next height (incl. negative) / by block time around the last block time / TxHeight style, pool '
             'age around the expiry interval; header present or never set. Per scenario: EventTxList with every count -1..n+2 '
             '(with and without exclusion lists of pooled and unknown hashes), plus random getTxList calls (count <= 0 allowed) '
             'and EventGetMempool with IsAll true/false. Streams: mixed, prefork (ForkCheckEthTxSort at height..height+2, header '
             'height -1), wrap (current nonces at MaxInt64/MinInt64), replies (rpc stub answers error / wrong type), txheight '
-            '(TxHeight enabled, window boundaries, ForkTxHeight around the height), timeout (rpc stub silent: 2 s). One case = '
+            '(TxHeight enabled, window boundaries, ForkTxHeight around the height), timeout (rpc stub silent: 2 s), starved (a count '
+            'used up by eth transactions with nonce gaps: documented observation, see assumptions). One case = '
             'one request; observables: the reply as list of transaction ids (or the error reply) and the order of the nonce '
             'requests seen by the stub rpc subscriber (= Go map iteration order, fed to the model as the permutation). '
             'non-trivial = the pool is non-empty; distinct = distinct Gallina case terms',
@@ -49,6 +50,9 @@ SPEC = {
         'the eth-run clause holds from ForkCheckEthTxSort on (height 0 in every shipped configuration); before it '
         'C23_prefork_arrival_order holds instead',
         'sequential requests; getTxList holds the pool lock while it waits (up to 2 s per sender) for the rpc module',
+        'observation outside the property text (safety only): the count is applied before the nonce sort, so eth-signed '
+        'transactions with a nonce gap (or a low nonce) at the head of the queue use up the count and packable transactions '
+        'behind them are not handed out until those expire (Example ex_starved; reproduced on the Go code by the starved stream)',
     ],
     'manifest': {
         'level_text': 'full: every clause of the property proved for all pools, requests, nonce functions and sender orders, '
